@@ -21,7 +21,7 @@ ASSUMPTIONS = [
     'liveness ("always eventually fired") is decided at quiescence: queue empty and no runnable task for two loop iterations',
     'events cancelled only before their dispatch; a cancelled event has no handler steps',
 ]
-REQUIRED = ['handler_suspended_by_sleep', 'raising_descendant_asks_for_feedback_of_its_own', 'success_requested_one_handler_raised_another_finished_later', 'complete_requested', 'nested_complete', 'descendant_cancelled', 'descendant_stopped', 'descendant_raised',
+REQUIRED = ['closure_contains_events_nobody_handles', 'handler_suspended_by_sleep', 'raising_descendant_asks_for_feedback_of_its_own', 'success_requested_one_handler_raised_another_finished_later', 'complete_requested', 'nested_complete', 'descendant_cancelled', 'descendant_stopped', 'descendant_raised',
             'descendant_from_generator_step', 'several_roots_in_flight', 'complete_channels_override', 'closure_depth_3plus',
             'handler_suspended_in_call_or_wait', 'call_or_wait_timed_out_in_closure', 'suspended_again_right_after_timeout',
             'root_events_fired_on_a_component_that_joins_later', 'complete_requesting_event_object_fired_again', 'feedback_event_handler_in_closure', 'derived_child_event_in_closure', 'driven_by_tick_from_the_calling_thread', 'manager_had_an_earlier_run', 'earlier_run_in_another_thread', 'earlier_run_ended_with_exit_code']
@@ -99,7 +99,8 @@ def earlier_run(w, pre):
 
 def run_case(case):
     from vlib.prog import World
-    w = World({'handlers': case['handlers'], 'mk': case.get('mk')})
+    w = World({'handlers': case['handlers'], 'mk': case.get('mk'), 'unprobed': case.get('unprobed'),
+               'probe_names': [f['name'] for f in case['fires']] + ['slow', 'after', 'k']})
     if case.get('earlier_run'):
         why = earlier_run(w, case['earlier_run'])
         if why:
@@ -202,6 +203,9 @@ def evaluate(case, w):
             marks.add('earlier_run_ended_with_exit_code')
     if any(a[0] == 'sleep' for h in case['handlers'] for a in h['body']):
         marks.add('handler_suspended_by_sleep')
+    unp = set(case.get('unprobed') or ())
+    if unp and sum(1 for i in w.events.values() if i['name'] in unp and i['parent'] is not None) >= 2:
+        marks.add('closure_contains_events_nobody_handles')
     roots_complete = [u for u, info in w.events.items() if info['flags'].get('complete') and info['parent'] is None]
     if len(roots_complete) >= 2:
         marks.add('several_roots_in_flight')
@@ -342,6 +346,16 @@ def corpus():
             HD(2, 'step', [['yield', None], ['raise']], gen=True, prio=1), HD(3, 'step', [['yield', None], ['yield', None], ['fire', {'name': 'late'}]], gen=True),
             HD(6, 'step', [['ret', 'p']], prio=2), HD(4, 'late', [['yield', None], ['fire', {'name': 'e'}]], gen=True), HD(5, 'e', [])],
             'fires': [{'name': 'a', 'flags': C}, {'name': 'step', 'flags': dict(fl, complete=True)}]})
+    # events of the closure that nobody handles at all (no handler of that name, no catch-all - the harness's probe listens by name here),
+    # fired several times (the first dispatch fills the handler cache, the later ones find the empty entry), from plain handlers and from
+    # later generator steps, with and without feedback flags of their own
+    cs.append({'name': 'unhandled-events-in-closure', 'unprobed': ['note'], 'handlers': [
+        HD(1, 'job', [['fire', {'name': 'work'}], ['fire', {'name': 'note'}]]), HD(2, 'work', [['fire', {'name': 'note'}], ['fire', {'name': 'note', 'flags': {'success': True}}]]),
+        HD(3, 'late', [['yield', None], ['fire', {'name': 'note'}], ['yield', None], ['fire', {'name': 'note', 'flags': C}]], gen=True)],
+        'fires': [{'name': 'job', 'flags': C}, {'name': 'job', 'flags': C}, {'name': 'job', 'flags': C}, {'name': 'late', 'flags': C}, {'name': 'late', 'flags': C},
+                  {'name': 'note', 'flags': C}]})
+    cs.append({'name': 'unhandled-events-only', 'unprobed': ['note'], 'handlers': [HD(1, 'job', [['fire', {'name': 'note'}]] * 3)],
+               'fires': [{'name': 'job', 'flags': C}, {'name': 'job', 'flags': C}], 'drive': 'tick'})
     # handlers of the closure suspended by `yield sleep(0)` before and after they fire
     cs.append({'name': 'sleeping-handlers-in-closure', 'handlers': [
         HD(1, 'a', [['sleep', 0], ['fire', {'name': 'b'}], ['sleep', 0], ['sleep', 0], ['fire', {'name': 'c', 'flags': C}]], gen=True),
@@ -420,6 +434,11 @@ def gen_case(rng):
     if rng.random() < 0.25:
         return gen_suspending_case(rng)
     case = gen_plain_case(rng)
+    if rng.random() < 0.15:
+        # some events of the closures go to a name nobody handles at all
+        case['unprobed'] = ['u']
+        for h in case['handlers']:
+            h['body'] = [(['fire', dict(a[1], name='u')] if a[0] == 'fire' and rng.random() < 0.35 else a) for a in h['body']]
     if rng.random() < 0.2:
         case['mk'] = rng.choice(['attr', 'renamed'])   # events whose name is not their class name
     r = rng.random()
